@@ -485,10 +485,12 @@ impl<Service: service::Service, Resource: ServiceResource> Receiver<Service, Res
             // then continue the for-loop but skip the previously looped indices
             loop {
                 let mut index_and_key = None;
+                // enumerate before skip, 'n' must be the index in 'to_be_removed_connections' and
+                // not the index relative to the skipped entries
                 for (n, connection_key) in to_be_removed_connections
                     .iter()
-                    .skip(indices_to_skip)
                     .enumerate()
+                    .skip(indices_to_skip)
                 {
                     let connection = match connection_storage.get(*connection_key) {
                         Some(connection) => connection,
